@@ -75,7 +75,8 @@ def cases(tier, seed):
         res = sorted({ra * m for m in mult} | {rb * m for m in mult})
         res = [r for r in res if (r % ra == 0) != (r % rb == 0)]     # exactly one possible base
         rng.shuffle(res)
-        yield "zm.multibase", {"mode": mode, "bases": bases, "resolutions": res, "chunk": rng.choice([3, 10 ** 6])}
+        yield "zm.multibase", {"mode": mode, "bases": bases, "resolutions": res, "chunk": rng.choice([3, 10 ** 6]),
+                               "dtypes_arg": ["none", "empty", "cli"][h % 3]}      # dtypes=None / an empty mapping / `--field count`
     # (3) resolution-spec spellings of `cooler zoomify -r`
     specs = [("N", [{"kind": "n", "start": 1000}]), ("n", [{"kind": "n", "start": 1000}]), ("B", [{"kind": "b", "start": 1000}]),
              ("b", [{"kind": "b", "start": 1000}]), ("4DN", [{"kind": "4dn", "start": 0}]), ("4dn", [{"kind": "4dn", "start": 0}]),
